@@ -260,6 +260,65 @@ func init() {
 		// the loop runs until the set is empty: loop header depends on len(writeSet)
 	})
 
+	reg("C03-R5", "index rollback mirrors the forward update: in the UPDATE branch of TransactionManager.Abort every non-nil index gets an UpdateEntry whenever the row was relocated (rid1 != rid2), as UpdateExecutor moved every index entry to the new RID", func(w *World, r *Report) {
+		a := w.A()
+		ab := w.SSA(a.TMAbort)
+		updEntry := w.MethodObj("storage/index", "Index", "UpdateEntry")
+		keyAttrs := w.MethodObj("storage/index", "Index", "GetKeyAttrs")
+		rid1 := w.Field("storage/access", "WriteRecord", "rid1")
+		rid2 := w.Field("storage/access", "WriteRecord", "rid2")
+		isRidCmp := func(v ssa.Value) bool {
+			bo, ok := v.(*ssa.BinOp)
+			if !ok || (bo.Op != token.NEQ && bo.Op != token.EQL) {
+				return false
+			}
+			d1 := func(x ssa.Value) bool { return DependsOn(x, func(y ssa.Value) bool { return fieldLoadOf(y, rid1) }) }
+			d2 := func(x ssa.Value) bool { return DependsOn(x, func(y ssa.Value) bool { return fieldLoadOf(y, rid2) }) }
+			return (d1(bo.X) && d2(bo.Y)) || (d2(bo.X) && d1(bo.Y))
+		}
+		// keep the "relocated" side of every rid1/rid2 comparison
+		relocated := func(b *ssa.BasicBlock, succ int) bool {
+			i := blockIf(b)
+			if i == nil {
+				return false
+			}
+			v, neg := condBase(i.Cond)
+			if !isRidCmp(v) {
+				return false
+			}
+			bo := v.(*ssa.BinOp)
+			differWhenTrue := bo.Op == token.NEQ
+			binTrueOnEdge := (succ == 0) != neg
+			return binTrueOnEdge != differWhenTrue // remove the edge on which the RIDs are equal
+		}
+		starts := sitesCalling(ab, keyAttrs)
+		r.Floor("per-index bodies in Abort (GetKeyAttrs sites)", len(starts), 1)
+		nCmp := 0
+		for _, b := range ab.Blocks {
+			if i := blockIf(b); i != nil {
+				if v, _ := condBase(i.Cond); isRidCmp(v) {
+					nCmp++
+				}
+			}
+		}
+		r.Floor("rid1/rid2 comparisons in Abort", nCmp, 1)
+		wit := (&PathQ{Fn: ab, Cut: []EdgeCut{relocated}, Avoid: InstrCallsObj(updEntry), Target: func(in ssa.Instruction) bool {
+			if isReturn(in) {
+				return true
+			}
+			for _, s := range starts {
+				if s == in {
+					return true
+				}
+			}
+			if sl, ok := in.(*ssa.Slice); ok && strings.Contains(sl.X.Type().String(), "WriteRecord") {
+				return true
+			}
+			return false
+		}}).FromAfter(starts)
+		r.Check(wit == nil, "Abort:UPDATE-index-entry-restored-when-row-moved", "when the aborted update relocated the row, every index entry is moved back (UpdateEntry) regardless of whether the key changed", "path through the per-index rollback without UpdateEntry although rid1 != rid2: "+w.DescribeWitness(ab, wit))
+	})
+
 	reg("C12-R1", "each request is answered exactly once: in RequestManager.Run a received result leads to exactly one of {re-queue (handleAbortedByCCTxn), reply on the caller's channel}; ExecuteSQLForTxnTh sends exactly one result on every path", func(w *World, r *Report) {
 		run := w.Fn("samehada", "RequestManager", "Run")
 		handle := w.MethodObj("samehada", "RequestManager", "handleAbortedByCCTxn")
